@@ -2,7 +2,7 @@
    lookup_view, handle_request). *)
 From Coq Require Import NArith List Bool.
 Import ListNotations.
-From EIO Require Import Server ServerInv ServerProofs.
+From EIO Require Import Server ServerInv ServerProofs ServerUpg ServerIso.
 Open Scope N_scope.
 
 (* a request is refused exactly when it is not well addressed (protocol version when opening, allowed transport, live session,
@@ -26,8 +26,16 @@ Theorem c12_answer_no_effect : forall me r x s,
   outof (answer me r x s) = [OResp r x] /\ store (stof (answer me r x s)) = store s /\ table (stof (answer me r x s)) = table s.
 Proof. exact answer_out. Qed.
 
+(* a refused request has no effect at all (from any state): every session record - queue, transport flags, liveness, user data - is
+   exactly as before, no session is created, and the table can only have lost an entry that was already closed *)
+Theorem c12_refused_no_effect : forall cfg me r q s x, decide cfg q (valof (lookup_view cfg q s)) = DRefuse x ->
+  store (stof (handle_request cfg me r q s)) = store s /\ nsid (stof (handle_request cfg me r q s)) = nsid s /\
+  (forall i, nmem i (table (stof (handle_request cfg me r q s))) = true -> nmem i (table s) = true).
+Proof. exact refused_no_effect. Qed.
+
 Print Assumptions c12_let_in_iff_well_addressed.
 Print Assumptions c12_refusal_status.
 Print Assumptions c12_405_only_other_methods.
 Print Assumptions c12_refused_emits_only_refusal.
 Print Assumptions c12_answer_no_effect.
+Print Assumptions c12_refused_no_effect.
